@@ -191,58 +191,19 @@ Definition render_decl (sp : dspell) (d : adecl) : str :=
   join (c_comma :: blanks (ds_sep sp)) (map (render_entity sp dimattr) (d_entities d)).
 
 (* ------------------------------------------------------------------ regions of the recorded findings *)
-Definition has_comma (x : str) : bool := existsb (Ascii.eqb c_comma) x.
-Definition simple_len (x : str) : bool := (match x with [] => false | _ => forallb is_word x end) || seqb x (s "*") || seqb x (s ":").
-Definition starts_digit (x : str) : bool := match x with c :: _ => is_digit c | [] => false end.
-
-Definition positional_region (l : str) : nat := if starts_digit l && negb (all_digits l) then 3 else 0.
-Definition named_region (l : str) : nat := if simple_len l then 0 else 3.
-
-(* region of a type spelling, 0 = none:
-   1  "doubleprecision" / "doublecomplex" without a blank
-   2  blank after "*"
-   3  len= with an expression that is not a word, "*" or ":" ; positional length starting with digits
-   4  kind= with a comma inside the expression *)
-Definition type_region (sp : tspell) (t : atype) : nat :=
-  match t with
-  | ADouble | ADoubleComplex => if t_dbl sp =? 0 then 1 else 0
-  | ANum _ (Some k) =>
-    match t_form sp with
-    | 0 => 0
-    | 1 => if has_comma k then 4 else 0
-    | _ => if t_bstar sp =? 0 then 0 else 2
-    end
-  | AChar (Some l) None =>
-    match t_form sp with
-    | 0 => if t_bstar sp =? 0 then 0 else 2
-    | 1 => positional_region l
-    | _ => named_region l
-    end
-  | AChar (Some l) (Some _) =>
-    match t_form sp with
-    | 2 | 3 => named_region l
-    | _ => positional_region l
-    end
-  | _ => 0
-  end.
-
 Definition is_lower_mask (m : list bool) : bool := negb (existsb (fun b => b) m).
 
-(* region of a declaration spelling:
-   5  an attribute kept among the attributes is written with capitals or inner blanks
+(* region of a declaration spelling, 0 = none:
+   5  an attribute kept among the attributes is written with capitals
    7  array spec written as DIMENSION attribute *)
 Definition decl_region (sp : dspell) (d : adecl) : nat :=
-  match type_region (ds_type sp) (d_type d) with
-  | 0 =>
-    match dim_attr_of sp d with
-    | Some _ => 7
-    | None =>
-      match d_attrs d with
-      | _ :: _ => if is_lower_mask (ds_acase sp) then 0 else 5
-      | [] => 0
-      end
+  match dim_attr_of sp d with
+  | Some _ => 7
+  | None =>
+    match d_attrs d with
+    | _ :: _ => if is_lower_mask (ds_acase sp) then 0 else 5
+    | [] => 0
     end
-  | r => r
   end.
 
 (* ------------------------------------------------------------------ well-formedness *)
@@ -268,6 +229,8 @@ Definition expr_ok (x : str) : bool :=
   end.
 Definition ident_ok (x : str) : bool :=
   match x with c :: _ => is_alpha c && forallb is_word x | [] => false end.
+
+Definition has_comma (x : str) : bool := existsb (Ascii.eqb c_comma) x.
 
 Definition type_ok (sp : tspell) (t : atype) : bool :=
   match t with
@@ -414,50 +377,15 @@ Definition spec_unit (u : aunit) : unit_out :=
   mkuo (filter (fun w => sin w (au_prefix u)) proc_keywords)
        args ret (filter (fun v => negb (is_arg v) && negb (is_ret v)) all).
 
-(* ---- regions of the recorded findings at unit level:
-    8 OPTIONAL statement; 9 PARAMETER statement; 10 DIMENSION statement; 11 INTENT(IN OUT) statement;
-   12 double precision / double complex in a function prefix; 13 capitals in a prefix type (lower-cased);
-   14 a procedure keyword inside a prefix type; 15 attribute statements for the result variable *)
-Definition has_upper (x : str) : bool := existsb is_upper x.
-Definition type_text (t : atype) : str :=
-  match t with
-  | ANum _ (Some k) => k
-  | AChar l k => (match l with Some x => x | None => [] end) ++ (match k with Some x => x | None => [] end)
-  | ADerived _ n => n
-  | _ => []
-  end.
-
-Definition prefix_region (sp : uspell) (u : aunit) : nat :=
-  match au_kind u, au_rettype u with
-  | UFunction, Some t =>
-    if existsb (fun w => contains w (lower (type_text t))) proc_keywords then 14
-    else match t with
-         | ADouble | ADoubleComplex => 12
-         | _ => if has_upper (type_text t) then 13
-                else match type_region (us_rettype sp) t with 2 => 0 | r => r end   (* blanks are removed *)
-         end
-  | _, _ => 0
-  end.
+(* ---- regions of the recorded findings at unit level: 10 DIMENSION statement (the array spec is
+   reported as attribute text, like the DIMENSION attribute on the declaration) *)
 
 (* region of declaration number i of the unit, with its attribute / DIMENSION statements *)
 Definition decl_here (sp : uspell) (u : aunit) (i : nat) (d : adecl) : nat :=
   let dsp := nth_or_last (us_decls sp) i plain_dspell in
   let stmt := nth i (us_stmt sp) false in
   let dimstmt := nth i (us_dimstmt sp) false && has_dims d in
-  let rname := match au_result u with Some r => r | None => au_name u end in
-  let declares_result :=
-    match au_kind u, au_rettype u with
-    | UFunction, None => existsb (fun e => seqb (e_name e) rname) (d_entities d)
-    | _, _ => false
-    end in
-  if declares_result && ((stmt && (d_parameter d || d_optional d
-                                   || match d_intent d with Some _ => true | None => false end
-                                   || match d_attrs d with [] => false | _ => true end)) || dimstmt) then 15
-  else if stmt && d_optional d then 8
-  else if stmt && d_parameter d then 9
-  else if dimstmt then 10
-  else if stmt && ds_inout_blank dsp && match d_intent d with Some IInOut => true | _ => false end then 11
-  else decl_region dsp (strip_decl stmt dimstmt d).
+  if dimstmt then 10 else decl_region dsp (strip_decl stmt dimstmt d).
 
 Fixpoint body_region (sp : uspell) (u : aunit) (ds : list adecl) (i : nat) : nat :=
   match ds with
@@ -474,8 +402,4 @@ Fixpoint region_of_name (sp : uspell) (u : aunit) (ds : list adecl) (i : nat) (n
     else region_of_name sp u ds' (S i) name
   end.
 
-Definition unit_region (sp : uspell) (u : aunit) : nat :=
-  match prefix_region sp u with
-  | 0 => body_region sp u (au_decls u) 0
-  | r => r
-  end.
+Definition unit_region (sp : uspell) (u : aunit) : nat := body_region sp u (au_decls u) 0.
